@@ -21,7 +21,7 @@ PID = "C09"
 
 TRUSTED = [
     "Coq 8.16.1 kernel (vm_compute in Examples and in the two refutation witnesses; no native_compute)",
-    "axioms: none (Print Assumptions: Closed under the global context for all 21 theorems)",
+    "axioms: none (Print Assumptions: Closed under the global context for all 22 theorems)",
     "extraction: ExtrOcamlBasic only; nat/Z/positive stay Coq datatypes",
     "OCaml glue ocaml/construct_main.ml + common.ml; Python orchestration props/C09.py (coordinate <-> index tables taken from the implementation's own dumps)",
     "C++ driver harness/condrv.cpp (= harness/tsgdrv.cpp + read-only white-box dump of dynamic_values via #define private public)",
@@ -475,10 +475,14 @@ def run(res, tier, seed, replay_cases=None):
             for key in (sorted("%s:%s" % (k, fam) for k in ks) or ["final-set-depends-on-order:" + fam]):
                 res.violation(key, "%s [%s; start %s; target %s; order %d %s]" % (what, gl.make_cmd(c["spec"]), c["start"], c["target"], oi, c["orders"][oi]["mode"]),
                               replay_of(c, oi))
+    seen_ck = set()
     for oid, m in modes.items():
         c, oi = case_of_order[oid]
         fam = c["spec"]["family"]
         for k in keys_of(m):
+            if (c["id"], k) in seen_ck:
+                continue          # one replay file per case and key
+            seen_ck.add((c["id"], k))
             stats["violations"] += 1
             text = {KEY_SINGLE: "a single-point loadConstructedPoints call for a point whose tensor is not registered leaves the complete, admissible tensor parked",
                     KEY_CAND: "getCandidateConstructionPoints un-registers a tensor whose samples are parked; the samples are not promoted when the tensor becomes admissible"}[k]
